@@ -435,19 +435,28 @@ where
         trailer.size = (self.refs.len() + 2) as _;
         let trailer_dict = trailer.to_dict(self)?;
         
-        let xref_promise = self.promise::<Stream<XRefInfo>>();
-
         let mut changes: Vec<_> = self.changes.iter().collect();
         changes.sort_unstable_by_key(|&(id, _)| id);
 
+        // serialize all pending objects before touching the document, so that a value
+        // that cannot be written leaves neither half a revision nor a dangling promise behind
+        let mut body = Vec::new();
+        let mut written = Vec::with_capacity(changes.len());
         for &(&id, &(ref primitive, gen)) in changes.iter() {
-            // offsets are relative to the header
-            let pos = self.backend.len() - self.start_offset;
-            self.refs.set(id, XRef::Raw { pos: pos as _, gen_nr: gen });
-            writeln!(self.backend, "{} {} obj", id, gen)?;
-            primitive.serialize(&mut self.backend)?;
-            writeln!(self.backend, "\nendobj")?;
+            written.push((id, gen, body.len()));
+            writeln!(body, "{} {} obj", id, gen)?;
+            primitive.serialize(&mut body)?;
+            writeln!(body, "\nendobj")?;
         }
+
+        // offsets are relative to the header
+        let body_pos = self.backend.len() - self.start_offset;
+        for (id, gen, pos) in written {
+            self.refs.set(id, XRef::Raw { pos: body_pos + pos, gen_nr: gen });
+        }
+        self.backend.extend_from_slice(&body);
+
+        let xref_promise = self.promise::<Stream<XRefInfo>>();
 
         let xref_pos = self.backend.len() - self.start_offset;
         self.refs.set(xref_promise.get_inner().id, XRef::Raw { pos: xref_pos, gen_nr: 0 });
